@@ -46,7 +46,7 @@ var profStaticMix = &profile{weights: [6]int{55, 70, 80, 86, 94, 98}, plainStati
 var hdrNames = []string{"X-K", "x-k", "Accept", "X-Mode", "x-mode"}
 var hdrExprs = []string{"v", "^v$", "", "a|b", "[0-9]+", "^$", "x.x"}
 var hdrVals = []string{"v", "vv", "", "a", "7", "xvx", "b", "x-x"}
-var reqMethods = []string{"GET", "GET", "GET", "POST", "HEAD", "PUT"}
+var reqMethods = []string{"GET", "GET", "GET", "GET", "POST", "POST", "HEAD", "PUT", "get", "Post"}
 var oddMethods = []string{"get", "", "FOO", "G\xffT", "GET ", "*", "TRACE", "CONNECT"}
 
 func methodsFor(r *rand.Rand) string {
@@ -116,7 +116,47 @@ func routerGen(k routerKnobs) func(r *rand.Rand, tier string, emit Emit) {
 	}
 }
 
+// wideSession: many alternatives under ONE node (more than a dozen leaves / subtrees), several of equal rank
+// admitting the same segment — the order among equals must still be the registration order.
+func wideSession(r *rand.Rand, k routerKnobs, emit Emit) {
+	emit("NEW router")
+	prefix := ""
+	if r.Intn(2) == 0 {
+		prefix = "/" + pick(r, plainLits)
+	}
+	suffix := ""
+	if r.Intn(3) == 0 {
+		suffix = "/" + pick(r, plainLits) // alternatives are subtrees instead of leaves
+	}
+	overl := []string{"{a: /[0-9]+/}", "{b: /[a-z0-9-]+/}", "{c: /.+/}", "{d: /[0-9a-f]+/}", "{e}", "{f: /[\\w]+/}", "{g: /.*/}"}
+	n := 13 + r.Intn(12)
+	var texts []string
+	for i := 0; i < n; i++ {
+		if r.Intn(3) == 0 {
+			texts = append(texts, prefix+"/"+pick(r, overl)+suffix)
+		} else {
+			texts = append(texts, fmt.Sprintf("%s/page%d%s", prefix, i, suffix))
+		}
+	}
+	r.Shuffle(len(texts), func(i, j int) { texts[i], texts[j] = texts[j], texts[i] })
+	for i, t := range texts {
+		emit("ADD %d GET %s %s", i, hx(t), wireOfText(t))
+	}
+	for j := 0; j < k.reqs+6; j++ {
+		seg := pick(r, []string{"123", "abc", "a-1", "page3", "page77", "7f", "x_y", "", "9"})
+		p := prefix + "/" + seg + suffix
+		emit("REQ %s %s", hx("GET"), hx(p))
+		if k.treq {
+			emit("TREQ %s %s", hx("GET"), hx(p))
+		}
+	}
+}
+
 func routerSession1(r *rand.Rand, k routerKnobs, emit Emit) {
+	if !k.rawPaths && k.urlOps == 0 && r.Intn(25) == 0 {
+		wideSession(r, k, emit)
+		return
+	}
 	emit("NEW router")
 	n := 1 + r.Intn(k.routesMax)
 	var routes []gRoute
@@ -242,6 +282,20 @@ func routerSession1(r *rand.Rand, k routerKnobs, emit Emit) {
 			parts = append(parts, hx("dangling"))
 		}
 		emit("%s", strings.Join(parts, " "))
+		if r.Intn(4) == 0 {
+			// two different assignments whose texts coincide once joined with a separator: (k1 = v1<sep>k2<sep>v2)
+			// versus (k1 = v1, k2 = v2) — built one after the other on the same router
+			k1, k2 := pick(r, bindNames), pick(r, bindNames)
+			v1, v2 := pick(r, vals), pick(r, vals)
+			sep := pick(r, []string{"&", "=", ",", " ", "/", "\x00", "?"})
+			a := []string{"URL", hx(nm), hx(k1), hx(v1 + sep + k2 + sep + v2)}
+			b := []string{"URL", hx(nm), hx(k1), hx(v1), hx(k2), hx(v2)}
+			if r.Intn(2) == 0 {
+				a, b = b, a
+			}
+			emit("%s", strings.Join(a, " "))
+			emit("%s", strings.Join(b, " "))
+		}
 	}
 }
 
